@@ -11,7 +11,7 @@ import itertools
 from sim import devices
 from sim.canon import Log, dec_table, enc_table, canon_row, canon_cell
 from sim.catalogue import RECIPES, NAMES, World, _csv_bytes
-from sim.core import outcome
+from sim.core import outcome, draw_config
 from sim.devices import LongTable, SimTable, PoisonedTail
 from sim.gen import gen_table
 from sim.loader import load_petl
@@ -58,7 +58,11 @@ STACKABLE = [n for n in STREAM_NAMES if RECIPES[n].stackable]
 BYTE_NAMES = ['fromcsv', 'fromtsv', 'frompickle', 'fromtext',
               'fromjson-lines']
 CONSUMERS = ['next', 'next', 'next', 'islice', 'head', 'look', 'lookstr',
-             'see', 'repr_html', 'rowslice', 'data-slice', 'records-slice']
+             'see', 'repr_html', 'rowslice', 'data-slice', 'records-slice',
+             'list-head', 'len-head', 'tuple-rowslice']
+# list(v) / tuple(v) / len(v) on a petl view iterate it twice (the length is
+# taken first): the cost is still O(k), with factor 2
+TWICE = ('list-head', 'len-head', 'tuple-rowslice')
 
 
 def budget(tier):
@@ -117,6 +121,9 @@ def gen_case(rng, tier, g):
             order += [i] * (c['k'] + 1)
     rng.shuffle(order)
     return {'prop': PROP, 'mode': 'rows', 'stack': stack, 'tables': tables,
+            'config': draw_config(rng, 0.15, exclude=(
+                'sort_buffersize', 'failonerror', 'look_limit', 'see_limit',
+                'display_limit')),
             'L1': rng.randint(60, 150), 'L2': rng.randint(5000, 12000),
             'consumers': consumers, 'order': order}
 
@@ -176,6 +183,14 @@ def _run_consumer(e, view, c, tid, items):
             return max(0, len(got) - 1)
         if kind == 'rowslice':
             got = list(iter(e.rowslice(view, k)))
+            return max(0, len(got) - 1)
+        if kind == 'list-head':
+            got = list(e.head(view, k))
+            return max(0, len(got) - 1)
+        if kind == 'len-head':
+            return max(0, len(e.head(view, k)) - 1)
+        if kind == 'tuple-rowslice':
+            got = tuple(e.rowslice(view, k))
             return max(0, len(got) - 1)
         if kind == 'data-slice':
             return len(list(iter(e.data(view, k))))
@@ -289,12 +304,12 @@ def _one_length(e, case, total, log, sb, poison):
         delivered = {}
         done = {}
 
-        def check_bound(tid, d, demand):
+        def check_bound(tid, d, demand, factor=1):
             if kind != 'map':
                 return
             for i in streamed:
                 p = w.s[i].pulls('data', tid)
-                if p > max(d, demand) + la:
+                if p > factor * (max(d, demand) + la):
                     raise _Bad('pulls-exceed-bound',
                                'consumer %s obtained %d data rows (asked '
                                'for %d) but pulled %d data rows from source '
@@ -341,7 +356,7 @@ def _one_length(e, case, total, log, sb, poison):
                 continue
             tid = 'c%d' % ti
             d = _run_consumer(e, view, c, tid, items)
-            check_bound(tid, d, _demand(c))
+            check_bound(tid, d, _demand(c), 2 if c['kind'] in TWICE else 1)
             res[tid] = (d, False)
         pulls = {}
         for tid in res:
